@@ -3,11 +3,16 @@
 use crate::report::{Ctx, Spec, Stats};
 use serde_json::Value;
 
+pub mod c01;
 pub mod c02;
 pub mod c03;
 pub mod c04;
 pub mod c05;
+pub mod c06;
 pub mod c07;
+pub mod c08;
+pub mod c09;
+pub mod c12;
 pub mod c13;
 pub mod c19;
 pub mod c20;
@@ -21,11 +26,16 @@ pub struct PropDef {
 
 pub fn lookup(id: &str) -> Option<PropDef> {
     Some(match id {
+        "C01" => PropDef { run: c01::run, replay: c01::replay },
         "C02" => PropDef { run: c02::run, replay: c02::replay },
         "C03" => PropDef { run: c03::run, replay: c03::replay },
         "C04" => PropDef { run: c04::run, replay: c04::replay },
         "C05" => PropDef { run: c05::run, replay: c05::replay },
+        "C06" => PropDef { run: c06::run, replay: c06::replay },
         "C07" => PropDef { run: c07::run, replay: c07::replay },
+        "C08" => PropDef { run: c08::run, replay: c08::replay },
+        "C09" => PropDef { run: c09::run, replay: c09::replay },
+        "C12" => PropDef { run: c12::run, replay: c12::replay },
         "C13" => PropDef { run: c13::run, replay: c13::replay },
         "C19" => PropDef { run: c19::run, replay: c19::replay },
         "C20" => PropDef { run: c20::run, replay: c20::replay },
